@@ -213,6 +213,25 @@ func (s *ldapService) SetChannel(c pushers.Channel) {
 }
 
 func (s *ldapService) Handle(ctx context.Context, conn net.Conn) error {
+	// The service object is shared by all connections. Everything that
+	// belongs to one connection (socket, reader, TLS and login state, and the
+	// request handlers bound to that state) lives in a session of its own.
+	sess := &ldapService{
+		Server: Server{
+			Handlers:    make([]requestHandler, 0, 4),
+			Credentials: s.Credentials,
+			tlsConfig:   s.tlsConfig,
+			DSE:         s.DSE,
+		},
+		c: s.c,
+	}
+
+	sess.setHandlers()
+
+	return sess.handle(ctx, conn)
+}
+
+func (s *ldapService) handle(ctx context.Context, conn net.Conn) error {
 	s.wantTLS = false
 
 	s.login = "" // set the anonymous authstate
